@@ -641,9 +641,13 @@ def gen_rescale(rng, n):
         s2 = [ga * a + de * b for a, b in zip(N1, N2)]
         u = F(rng.randint(1, 6), rng.randint(1, 4))
         T_ = rational_isometry(rng, dim)
+        lam = [rlam(rng) for _ in range(5)]
+        # same exclusion for the rescaled representatives (lam[2]*s1 - lam[3]*s2 lightlike)
+        while al * lam[2] == ga * lam[3] or be * lam[2] == de * lam[3]:
+            lam = [rlam(rng) for _ in range(5)]
         yield {"dim": dim, "x": [Q.qs(a) for a in xh], "y": [Q.qs(a) for a in y], "s1": [Q.qs(a) for a in s1],
                "s2": [Q.qs(a) for a in s2], "n1": [Q.qs(a) for a in N1], "n2": [Q.qs(a) for a in N2],
-               "lam": [Q.qs(rlam(rng)) for _ in range(5)], "u": Q.qs(u), "T": [[Q.qs(a) for a in r] for r in T_],
+               "lam": [Q.qs(l) for l in lam], "u": Q.qs(u), "T": [[Q.qs(a) for a in r] for r in T_],
                "chart": rng.randrange(dim + 1)}
 
 
